@@ -19,7 +19,12 @@ SIZES = {"quick": {"hist": 36, "seeds": ["0", "1", "2", "random"]},
 # symbolically, and the names must not depend on what was analysed before
 EXTRA = ["#pragma version 6\ntxn RekeyTo\ntxn Sender\n==\nassert\ntxn CloseRemainderTo\nglobal ZeroAddress\n==\nbz fail\nint 1\nreturn\nfail:\nerr\n",
          "#pragma version 6\ntxn CloseRemainderTo\ntxn Receiver\n==\nassert\nload 3\ntxn AssetCloseTo\n==\nassert\nint 1\nreturn\n"]
-NCONTRACTS = 10
+# ... and two contracts with a subroutine of the SAME name (`sa`, the name the generated contracts use as well) in which
+# the execution can end, guarded differently: anything remembered per subroutine name across analyses shows here
+EXTRA += ["#pragma version 6\ntxn NumAppArgs\ncallsub sa\nglobal GroupSize\nint 2\n==\nassert\nint 1\nreturn\nsa:\nbz fin\nretsub\nfin:\nint 1\nreturn\n",
+          "#pragma version 6\ntxn NumAppArgs\ncallsub sa\nglobal GroupSize\nint 2\n==\nassert\nint 1\nreturn\nsa:\nbz fin\nretsub\nfin:\n"
+          "global GroupSize\nint 3\n==\ntxn Fee\nint 1000\n<=\n&&\ntxn RekeyTo\nglobal ZeroAddress\n==\n&&\nassert\nint 1\nreturn\n"]
+NCONTRACTS = 12
 ORDERS = [DETECTORS, list(reversed(DETECTORS)), DETECTORS[4:] + DETECTORS[:4]]
 MAXLEN = 3
 
@@ -139,7 +144,7 @@ def collect(prop, tier, seed):
         raise fw.Machinery("vacuous: no history with more than one action")
     cov = {"states": tot["states"], "transitions": tot["transitions"], "traces_validated_against_impl": tot["histories"],
            "evaluations": tot["histories"], "distinct_nontrivial": tot["multi_action"], "hash_seeds": tot["hash_seeds"],
-           "rule": "SessionTrace.tla: histories of Session.tla (up to %d actions over %d sensitising contracts (8 generated, 2 with run-time address operands) x %d detector "
+           "rule": "SessionTrace.tla: histories of Session.tla (up to %d actions over %d sensitising contracts (8 generated, 2 with run-time address operands, 2 with a same-named subroutine that approves by itself) x %d detector "
                    "orders, Rerun included) drawn by SessionGen.tla, each replayed in one fresh interpreter (hash seeds "
                    "rotating) and validated as a trace against the results of fresh single-action processes; non-trivial = "
                    "histories with more than one action" % (MAXLEN, NCONTRACTS, len(ORDERS)),
